@@ -76,7 +76,15 @@ func vnRenderJS(out []byte, list []vnS, names []byte) []byte {
 			out = vnRenderJS(out, s.body, names)
 			out = append(out, '}')
 		case "forlet":
-			out = append(append(append(out, "for(let "...), id(s.site)...), ";;){"...)
+			out = append(append(append(out, "for(let "...), id(s.site)...), ';')
+			if len(s.defs) > 0 { // condition and update expressions referring to names
+				out = append(out, id(s.defs[0])...)
+			}
+			out = append(out, ';')
+			if len(s.defs) > 1 {
+				out = append(out, id(s.defs[1])...)
+			}
+			out = append(out, "){"...)
 			out = vnRenderJS(out, s.body, names)
 			out = append(out, '}')
 		}
@@ -239,6 +247,11 @@ func (r *vnResolver) scope(sc *vnScope, list []vnS) {
 		case "use", "puse":
 			r.use(sc, s.site)
 		case "block", "catch", "forlet":
+			if s.k == "forlet" {
+				for _, d := range s.defs {
+					r.use(inner[i].parent, d) // condition / update live in the loop-head scope
+				}
+			}
 			r.scopeBody(inner[i], s.body)
 		case "func":
 			r.function(sc, s)
@@ -282,6 +295,11 @@ func (r *vnResolver) scopeBody(sc *vnScope, list []vnS) {
 		case "use", "puse":
 			r.use(sc, s.site)
 		case "block", "catch", "forlet":
+			if s.k == "forlet" {
+				for _, d := range s.defs {
+					r.use(inner[i].parent, d)
+				}
+			}
 			r.scopeBody(inner[i], s.body)
 		case "func", "arrow", "arrow1":
 			r.function(sc, s)
@@ -326,6 +344,11 @@ var vnSkeletons = []struct {
 	{5, []vnS{vnD("let", 0), {k: "puse", site: 1}, vnBlk(vnD("let", 2), vnS{k: "puse", site: 3}), vnU(4)}},                        // 18: parenthesised uses in nested scopes
 	{4, []vnS{vnD("var", 0), {k: "arrow1", site: -1, params: []int{1}, body: []vnS{vnU(2)}}, vnU(3)}},                           // 19: x => body
 	{6, []vnS{vnD("var", 0), {k: "forlet", site: 1, body: []vnS{vnD("let", 2), {k: "puse", site: 3}}}, {k: "puse", site: 4}, vnU(5)}}, // 20
+	{4, []vnS{vnD("var", 0), vnBlk(vnU(1), vnBlk(vnU(2))), vnU(3)}},                                                          // 21: reference two scopes below its declaration
+	{5, []vnS{vnBlk(vnU(0)), vnBlk(vnU(1), vnBlk(vnU(2))), vnD("var", 3), vnU(4)}},                                            // 22: uses before a hoisted var, nested
+	{6, []vnS{vnD("var", 0), {k: "forlet", site: 1, defs: []int{2, 3}, body: []vnS{vnD("let", 4), vnU(5)}}}},                  // 23: loop condition/update vs a let in the body
+	{5, []vnS{vnD("let", 0), vnBlk(vnU(1), vnBlk(vnU(2), vnBlk(vnU(3)))), vnU(4)}},                                            // 24: three scopes below
+	{5, []vnS{{k: "forlet", site: 0, defs: []int{1, 2}, body: []vnS{vnU(3)}}, vnU(4)}},                                       // 25: loop head name used in condition, update and body
 }
 
 // VerifScope: all identifier occurrences that denote the same binding share one Var;
